@@ -15,6 +15,10 @@ NA = {
 PENDING = "static check designed in DESIGN.md section 3 but not built yet; not claimed until it exists"
 
 CHECKS = {
+ "C15": dict(level="other", technique="IR def-use / taint analysis with an unsigned upper-bound domain for lossless-truncation, DWARF member types",
+   text="PARTIAL. Decided for all 28 built *_ctx_*.c units: total_length is a 64-bit member; every update is `total_length + zext(len)` as a 64-bit add or the constant 0; along every def-use chain from a load of total_length (through local callees such as hash_pad) no truncation below 64 bits occurs unless an upper-bound analysis shows it lossless (block-offset masks); the byte-to-bit conversion is a 64-bit operation that reaches an 8-byte store into the padding; SHA-512 zeroes the upper 8 length bytes. These are exactly the two shipped defects of this family (32-bit <<3, 32-bit total). NOT decided: the digest (C01) and the block-count packing in the assembly managers' lane words.",
+   note="Structural necessary condition of the property, not the digest equality. Trusted: clang IR makes every C integer conversion explicit; DWARF.",
+   ref="3/C15"),
  "C14": dict(level="proof", technique="secrecy-class dataflow (ZERO/CONST/MIXED/purely-secret-derived) over object code on top of a stack-geometry abstract interpretation; argument roles derived from the repository's wrappers; callee summaries for C stack buffers",
    text="All 143 CPU-specific AES entry points named by the 42 AES dispatchers (GCM 96, XTS 24, CBC 15, key expansion 8; ~460k instructions, 389 exits) are analysed to a fixpoint over all paths in the default -DSAFE_DATA build: every load through a key / key-schedule / GHASH-key / XTS-tweak argument is a secret source, classes propagate through registers (three segments per zmm register) and stack slots, and at every ret or tail jump no vector-register segment and no slot of a frame the function created may be purely secret-derived. The -O2 objects of aes/*.c are analysed with callee summaries (a stack buffer handed to a key-writing callee must be overwritten by stores the optimiser kept). The default build is checked to carry -DSAFE_DATA on every unit.",
    note="Sufficient-condition analysis with a stated definition of 'secret': values that mix in caller data (AES state, GHASH accumulator, ciphertext) are not the property's listed secrets; general-purpose registers are outside the property. Trusted: MC operand tables; the role dictionary (parameter names -> key/tweak/data). The 64 KiB-of-stack clause is covered for frames the entry points create, not for callers' frames.",
